@@ -84,10 +84,18 @@ def rule_drain(ctx):
         if fn is None:
             ctx.missing(R, "analyze_" + kind)
             continue
-        loops = [n for n in walk(fn["body"]) if n["k"] == "For"]
-        okk = len(loops) == 1 and re.fullmatch(r"self\.%s_names\(user_input_only\)" % kind[:-1], render(loops[0]["iter"]).replace(" ", "")) is not None
-        inner = okk and len(list(method_calls(loops[0]["body"], "analyze_" + kind[:-1]))) == 1 and not [n for n in walk(loops[0]["body"]) if n["k"] in ("If", "Match", "Continue", "Break")]
-        ctx.check(R, "analyze_%s/one-analysis-per-name" % kind, bool(inner), render(fn["body"])[:200], site(RUN, fn))
+        # `analyze_<kind>(name, ..)` is called once, unconditionally, for every element of `self.<kind>_names(<param>)`
+        pvk = sgrep.params(fn)
+        okn, how = False, ""
+        for pk in pvk or ["user_input_only"]:
+            if not okn:
+                okn, how = sgrep.each_calls(fn["body"], "self.%s_names(%s)" % (kind[:-1], pk), "analyze_" + kind[:-1], sgrep.lets(fn["body"]))
+        ncalls = len(list(method_calls(fn["body"], "analyze_" + kind[:-1])))
+        # nothing else is emitted here: one pass over the names, no second write / drain of the caches
+        names_calls = len(list(method_calls(fn["body"], "%s_names" % kind[:-1])))
+        others = [m_["method"] for m_ in walk(fn["body"]) if m_["k"] == "MethodCall" and (m_["method"] == "write_reports" or m_["method"].startswith("take_"))]
+        inner = okn and ncalls == 1 and names_calls == 1 and not others and not [n for n in walk(fn["body"]) if n["k"] in ("Continue", "Break", "Return")]
+        ctx.check(R, "analyze_%s/one-analysis-per-name" % kind, bool(inner), "%s; %s" % (how, render(fn["body"])[:200]), site(RUN, fn))
 
 
 def canon_main(ctx, R):
@@ -627,3 +635,6 @@ def run(ctx):
     rule_displayable(ctx)
     rule_ids(ctx)
     rule_region(ctx)
+    import c02
+
+    ctx.include("C03.9", "prerequisite shared with C02: when CFG generation fails, everything collected so far (not only the fatal error) is appended to the per-definition cache before the error exit", c02.rule_error_path)
